@@ -583,6 +583,54 @@ def check_subnet_of_shape(ctx: Ctx, rep: Report, f: Func, tops: str, bottoms: st
 _KEEPS_ELEMENTS = ("list", "tuple", "sorted", "set", "frozenset")
 
 
+def members_only_for_groups(ctx: Ctx, rep: Report, rid: str = "R03.11") -> None:
+    """The networks of an address are its own network(s) or, for an address group, those of its members - never both:
+    the line setters re-type an address without emptying `_items`, so the member loop of `ipnets()` has to run only when
+    the address is (still) a group, i.e. under the group-type test or after the own-network tests have failed."""
+    rep.rule(rid)
+    ab = ctx.cls("AddressBase")
+    for cls in ctx.prog.classes.values():
+        f = cls.methods.get("ipnets")
+        if ab not in cls.mro:
+            continue  # a pure container (AddrGroup) is always a group
+        if f is None:
+            continue
+        cfg = ctx.cfg(f)
+
+        def reads_members(x: ast.AST, depth: int = 0) -> bool:
+            for y in ast.walk(x):
+                if isinstance(y, ast.Attribute) and src(y) in ("self._items", "self.items"):
+                    return True
+                if isinstance(y, ast.Call) and isinstance(y.func, ast.Attribute) and src(y.func.value) == "self" and y.func.attr.startswith("_") and depth < 2:
+                    m = cls.lookup_method(y.func.attr)
+                    if m is not None and m is not f and reads_members(m.node, depth + 1):
+                        return True
+            return False
+
+        sites = [n for n in cfg.live if n.ast is not None and n.kind in ("stmt", "for", "cond") and reads_members(n.ast.iter if n.kind == "for" else n.ast)]
+        for lp in sites:
+            rep.instance()
+            deps = cfg.transitive_control_deps(lp)
+            guarded = False
+            for c, lab in deps:
+                if c.kind != "cond":
+                    continue
+                t = src(c.ast)
+                if "addrgroup" in t and ("type" in t) and lab == "T" and isinstance(c.ast, ast.Compare) and isinstance(c.ast.ops[0], (ast.Eq, ast.In)):
+                    guarded = True
+                if "addrgroup" in t and ("type" in t) and lab == "F" and isinstance(c.ast, ast.Compare) and isinstance(c.ast.ops[0], (ast.NotEq, ast.NotIn)):
+                    guarded = True
+                if t.startswith("isinstance(self._wildcard") and lab == "F":
+                    guarded = True
+            what = snippet(lp.ast.iter if lp.kind == "for" else lp.ast, 60)
+            if guarded:
+                rep.ok(f"{f.qualname}: {what}", "members are read only for a group (type test) / only when the address has no network of its own", where=where(f, lp.ast))
+            else:
+                rep.violation(f.qualname, what, "the members' networks are added whatever the address currently is: an address that was a group and was re-assigned a host/prefix/wildcard line still covers its old members", where(f, lp.ast), inp="a = Address('object-group G', items=[...]); a.line = 'host 10.0.0.1'; a.ipnets()")
+        if not sites:
+            rep.note(f"{rid} {f.qualname} does not read the members (not judged)")
+
+
 def _quantifier_domains(rep: Report, f: Func, tops: str, bottoms: str) -> None:
     """The lists the cover test quantifies over are the arguments: not re-bound to something else, nothing added or
     removed (an added top widens the cover, a removed bottom drops an obligation)."""
@@ -774,6 +822,13 @@ def run(ctx: Ctx, rep: Report, tier: str) -> None:
     from .c05 import memo_rules
 
     memo_rules(ctx, rep, rid="R03.9")
+    members_only_for_groups(ctx, rep)
+    # R03.12 premise: the flag/log split of the option text (the flag cover test reads .flags)
+    from .c01 import option_partition
+
+    subo = Report("C03")
+    option_partition(ctx, subo)
+    rep.absorb(subo, "R03.12")
     # R03.10 premise: a field object re-parsed in place refreshes everything the cover tests read (ports, networks,
     # flags): every normal path of a line setter assigns the attributes the other paths assign (C01 R01.7)
     from .c01 import setter_completeness
